@@ -7,9 +7,14 @@
      line      L[S"line"; comments; start; L tokens; I inblock; end]
      block     L[S"block"; comments; start; L[comments; pos] (lparen); L tokens; L lines; L[comments; pos] (rparen)]
      cblock    L[S"cblock"; comments; start]
-     file      L[comments; L stmts] *)
+     file      L[comments; L stmts]
+     Parse / ParseLax / ParseWork   L[S data; I fixmode]   (fixmode 0: fix = nil, 1: [canon_fixer])
+                ok file | derrs [pos..] | errs [[pos; class]..] | panic | fuel
+     ModulePath S data      S path
+   File encoding: see [enc_filed] / [enc_work]; a *Line pointer is L[I stmt; I (line+1 or 0)]. *)
 From Verif.Base Require Import Bytes Wire.
-From Verif.Modfile Require Import Syntax Lex Parse Print.
+From Verif.Semver Require Import Model.
+From Verif.Modfile Require Import Syntax Lex Parse Print Directives ModulePath.
 
 Definition enc_pos (p : position) : val := VL [VI (p_line p); VI (p_col p); VI (p_byte p)].
 Definition enc_comment (c : comment) : val := VL [enc_pos (c_start c); VS (c_token c); VB (c_suffix c)].
@@ -46,8 +51,75 @@ Definition dispatch_syntax (f : str) (a : val) : option val :=
     Some (match a with VS data => run_syntax data | _ => VBadCase end)
   else None.
 
+
+(* ---------------------------------------------------------------- directive layer *)
+
+(* the deterministic fixer implemented on both sides: reject an empty path, otherwise
+   canonicalise with semver.Canonical and reject invalid versions *)
+Definition canon_fixer (path v : str) : option str :=
+  if Parse.is_nil path then None
+  else let c := canonical v in if Parse.is_nil c then None else Some c.
+
+Definition fixer_of (mode : Z) : fixer := if mode =? 0 then None else Some canon_fixer.
+
+Definition enc_ref (r : line_ref) : val :=
+  VL [VI (Z.of_nat (fst r)); VI (match snd r with Some j => Z.of_nat j + 1 | None => 0 end)].
+Definition enc_opt {A} (e : A -> val) (o : option A) : val :=
+  match o with Some a => e a | None => VL [] end.
+Definition enc_go (g : go_d) : val := VL [VS (go_version g); enc_ref (go_syntax g)].
+Definition enc_toolchain (t : toolchain_d) : val := VL [VS (tc_name t); enc_ref (tc_syntax t)].
+Definition enc_godebug (g : godebug_d) : val := VL [VS (gd_key g); VS (gd_value g); enc_ref (gd_syntax g)].
+Definition enc_replace (r : replace_d) : val :=
+  VL [VS (mv_path (rp_old r)); VS (mv_version (rp_old r)); VS (mv_path (rp_new r)); VS (mv_version (rp_new r));
+      enc_ref (rp_syntax r)].
+
+Definition enc_filed (f : file) : val :=
+  VL [enc_opt (fun m => VL [VS (mv_path (md_mod m)); VS (mv_version (md_mod m)); VS (md_deprecated m); enc_ref (md_syntax m)])
+              (fd_module f);
+      enc_opt enc_go (fd_go f);
+      enc_opt enc_toolchain (fd_toolchain f);
+      VL (map enc_godebug (fd_godebug f));
+      VL (map (fun r => VL [VS (mv_path (rq_mod r)); VS (mv_version (rq_mod r)); VB (rq_indirect r); enc_ref (rq_syntax r)])
+              (fd_require f));
+      VL (map (fun r => VL [VS (mv_path (ex_mod r)); VS (mv_version (ex_mod r)); enc_ref (ex_syntax r)]) (fd_exclude f));
+      VL (map enc_replace (fd_replace f));
+      VL (map (fun r => VL [VS (rt_low r); VS (rt_high r); VS (rt_rationale r); enc_ref (rt_syntax r)]) (fd_retract f));
+      VL (map (fun t => VL [VS (tl_path t); enc_ref (tl_syntax t)]) (fd_tool f));
+      enc_file (fd_syntax f)].
+
+Definition enc_work (f : work_file) : val :=
+  VL [enc_opt enc_go (wf_go f);
+      enc_opt enc_toolchain (wf_toolchain f);
+      VL (map enc_godebug (wf_godebug f));
+      VL (map (fun u => VL [VS (us_path u); VS (us_module_path u); enc_ref (us_syntax u)]) (wf_use f));
+      VL (map enc_replace (wf_replace f));
+      enc_file (wf_syntax f)].
+
+Definition enc_dresult {F} (e : F -> val) (r : dresult F) : val :=
+  match r with
+  | DOk f => VOk (e f)
+  | DErrs l => VL [VS (B "derrs"); VL (map enc_pos l)]
+  | DSyntax l => enc_errs l
+  | DPanic => VPanic
+  | DFuel => VFuel
+  end.
+
+Definition dispatch_directives (f : str) (a : val) : option val :=
+  if str_eqb f (B "Parse") then
+    Some (match a with VL [VS data; VI m] => enc_dresult enc_filed (parse_to_file true (fixer_of m) data) | _ => VBadCase end)
+  else if str_eqb f (B "ParseLax") then
+    Some (match a with VL [VS data; VI m] => enc_dresult enc_filed (parse_to_file false (fixer_of m) data) | _ => VBadCase end)
+  else if str_eqb f (B "ParseWork") then
+    Some (match a with VL [VS data; VI m] => enc_dresult enc_work (parse_work (fixer_of m) data) | _ => VBadCase end)
+  else if str_eqb f (B "ModulePath") then
+    Some (match a with VS data => VS (module_path data) | _ => VBadCase end)
+  else None.
+
 Definition dispatch (f : str) (a : val) : val :=
   match dispatch_syntax f a with
   | Some v => v
-  | None => VBadCase
+  | None => match dispatch_directives f a with
+            | Some v => v
+            | None => VBadCase
+            end
   end.
